@@ -7,7 +7,7 @@ import ast
 import inspect
 
 from btclib import silent_payments as sp
-from btclib.ecc import dleq, musig2, ssa
+from btclib.ecc import dleq, ecies, musig2, ssa
 
 NS = "Interactive"
 
@@ -59,4 +59,9 @@ def constants():
     t += _n("SP_MAX_LABEL", sp._MAX_LABEL, "`silent_payments._MAX_LABEL`")
     t += _n("SP_K_MAX", sp.K_MAX, "`silent_payments.K_MAX`")
     t += _n("SP_PK_SIZE", sp._PK_SIZE, "`silent_payments._PK_SIZE`")
+    t += _b("ECIES_MAGIC", ecies.MAGIC, "`ecies.MAGIC`")
+    t += _n("ECIES_MAGIC_SIZE", ecies._MAGIC_SIZE, "`ecies._MAGIC_SIZE`")
+    t += _n("ECIES_EPH_PUB_KEY_SIZE", ecies._EPH_PUB_KEY_SIZE, "`ecies._EPH_PUB_KEY_SIZE`")
+    t += _n("ECIES_MAC_SIZE", ecies._MAC_SIZE, "`ecies._MAC_SIZE`")
+    t += _n("ECIES_BLOCK_SIZE", ecies._BLOCK_SIZE, "`ecies._BLOCK_SIZE`")
     return t
